@@ -1,4 +1,5 @@
 import H264.Context
+import H264.SmallProofC19
 /-! # C19 — The parameter-set context behaves as a last-writer-wins map keyed by id
 
 Model: `Ctx.PMap α = List (Option α)` mirrors `ParamSetMap<T>(Vec<Option<T>>)`: `put` resizes with `None` and
@@ -35,5 +36,11 @@ theorem stores_independent {α β} (sm : PMap α) (pm : PMap β) (i : Nat) (v : 
 
 /-- non-vacuity -/
 example : (entriesFrom 0 (put (put (put ([] : PMap Nat) 2 20) 0 7) 2 21)) = [(0, 7), (2, 21)] := by decide
+
+/-- **model = real code on a complete small domain, by proof**: every sequence of up to three SPS insertions (ids 0, 1, 31 ×
+two distinguishable values; 259 histories): lookups of ids 0, 1, 2, 31 and the iteration of the model map are those of the
+real `Context` in this run's graph -/
+theorem model_map_reproduces_code : (SmallProof.allSeqs 6).map SmallProof.ctxRow = Generated.ctxRows :=
+  SmallProof.ctx_model_eq_code
 
 end C19
